@@ -140,11 +140,31 @@ class Program:
             files = glob.glob(os.path.join(root, "spec", "*.json")) + glob.glob(os.path.join(root, "tables", "*.txt")) + \
                 glob.glob(os.path.join(root, "rules", "*.py")) + glob.glob(os.path.join(root, "sa", "*.py")) + \
                 [os.path.join(verif, "known_findings.json")]
+            import ast
             for f in files:
                 try:
-                    names.update(re.findall(r"[A-Za-z_][A-Za-z0-9_]*", open(f).read()))
+                    txt = open(f).read()
                 except OSError:
-                    pass
+                    continue
+                if f.endswith(".py"):
+                    # only what the rules SAY (string literals: anchors, regexes, canonical forms), not how the
+                    # Python happens to be written (variable names, docstrings, comments)
+                    try:
+                        tree = ast.parse(txt)
+                    except SyntaxError:
+                        names.update(re.findall(r"[A-Za-z_][A-Za-z0-9_]*", txt))
+                        continue
+                    doc = set()
+                    for node in ast.walk(tree):
+                        if isinstance(node, (ast.Module, ast.FunctionDef, ast.ClassDef)) and node.body and \
+                                isinstance(node.body[0], ast.Expr) and isinstance(getattr(node.body[0], "value", None), ast.Constant) \
+                                and isinstance(node.body[0].value.value, str):
+                            doc.add(id(node.body[0].value))
+                    for node in ast.walk(tree):
+                        if isinstance(node, ast.Constant) and isinstance(node.value, str) and id(node) not in doc:
+                            names.update(re.findall(r"[A-Za-z_][A-Za-z0-9_]*", node.value))
+                else:
+                    names.update(re.findall(r"[A-Za-z_][A-Za-z0-9_]*", txt))
             self._opaque = names
         return self._opaque
 
